@@ -67,11 +67,13 @@ def generate(run_seed, tier):
         derived = ['dm0'] if c.random() < 0.6 else []
         obs_cfg = None
     else:
-        mcfg = R.gen_model_cfg(c, family='transmission')
+        mcfg = R.gen_model_cfg(c, family=c.choice(
+            ['transmission', 'transmission', 'emission', 'directimage']))
+        R.add_extra_contribs(c, mcfg, p=0.25)
         mcfg['nlayers'] = c.randint(3, 6)
         mcfg['opac']['ngrid'] = c.randint(12, 24)
         mcfg['kind'] = 'real'
-        fit = S.gen_fit(c, mcfg, nmax=3)
+        fit = S.gen_fit(c, mcfg, nmax=3, rich=True)
         derived = [d for d in DERIVED_POOL if c.random() < 0.4]
         if c.random() < 0.3:
             derived = []
@@ -555,7 +557,8 @@ def simplify(case):
         c = copy.deepcopy(case)
         c['config']['stale_files'] = False
         yield c
-    if len(cfg['model']['contribs']) > 1:
+    if len(cfg['model']['contribs']) > 1 and \
+            not S.fit_needs_contribs(cfg['fit']):
         c = copy.deepcopy(case)
         c['config']['model']['contribs'] = ['Absorption']
         yield c
